@@ -44,6 +44,26 @@ class ScipyGenExtreme(ScipyDistribution):
     scipy_dist_name = "genextreme"
 
 
+class _bimodal_gen(sts.rv_continuous):
+    """equal mixture of gamma(4) and gamma(4) shifted by `sep` - a bimodal law declared through scipy_dist"""
+
+    def _argcheck(self, sep):
+        return sep >= 0
+
+    def _cdf(self, x, sep):
+        return 0.5 * sts.gamma.cdf(x, 4.0) + 0.5 * sts.gamma.cdf(x - sep, 4.0)
+
+    def _pdf(self, x, sep):
+        return 0.5 * sts.gamma.pdf(x, 4.0) + 0.5 * sts.gamma.pdf(x - sep, 4.0)
+
+
+_bimodal = _bimodal_gen(a=0.0, name="bimodal", shapes="sep")
+
+
+class ScipyBimodal(ScipyDistribution):
+    scipy_dist = _bimodal
+
+
 CLASSES = {
     "Weibull": WeibullDistribution,
     "LogNormal": LogNormalDistribution,
@@ -57,6 +77,7 @@ CLASSES = {
     "ScipyRayleigh": ScipyRayleigh,
     "ScipyGenGamma": ScipyGenGamma,
     "ScipyGenExtreme": ScipyGenExtreme,
+    "ScipyBimodal": ScipyBimodal,
 }
 
 
